@@ -17,6 +17,7 @@ INIT = {"name": "init", "corpus": True}
 APIBM = {"name": "apibm", "model": False}
 # a second, independently seeded pass of the waiting-biased histories (rare estimate shapes are a matter of density)
 HISTW2 = {"name": "histw", "label": "gen2", "env": {"VERIF_SEED_ADD": "1"}}
+HIST2 = {"name": "hist", "label": "gen2", "env": {"VERIF_SEED_ADD": "1"}}
 
 ENGINE_TXT = ("Engine theorems (NR.Props.EngineThms, generic in the cached values, the step function and the exact "
               "checks): a completing propagation pass establishes cache = forward propagation and every check on what "
@@ -215,7 +216,7 @@ PROPS = {
             "design_ref": "DESIGN.md §5 C10",
         },
         "lean_props": ["C10", "C10S"],
-        "streams": [HIST, APIBM],
+        "streams": [HIST, HIST2, APIBM],
     },
     "C11": {
         "claim": {
